@@ -1626,7 +1626,7 @@ def pyeval_tasks(alph, tier, seed):
             t.append(mk(fam='logit', J=J, ev='py', forms=list(ch), n_u=n_u))
         c0 = [(seed + J) % nf, (seed + J + 3) % nf] if quick else list(range(nf))
         for ch in _chunks(c0, 4 if J == 2 else 1):
-            t.append(mk(fam='logit', J=J, ev='c0', forms=list(ch), n_u=2 if quick else 3))
+            t.append(mk(fam='logit', J=J, ev='c0', forms=list(ch), n_u=2 if (quick or J == 4) else 3))
     # hand-supplied ln G_i
     for J in range(2, Jmax + 1):
         ng = len(usermev_generators(alph, J))
